@@ -14,6 +14,7 @@ type HistOpts struct {
 	InsertOnly  bool // only insert batches (exact regime of the graph index)
 	GetAll      bool // select-* read of every id after every batch
 	MaxBatch    int  // largest random batch (0 = 5)
+	Wide        int  // wide composite filter requests at the end of the history
 }
 
 func (r *Runner) hasRanking() bool {
@@ -133,6 +134,9 @@ func (r *Runner) RunHistory(histNo int, o HistOpts) error {
 	}
 	if r.Cfg.RepeatUpd && o.Rank > 0 {
 		r.RepeatProbe(leaves)
+	}
+	if o.Wide > 0 {
+		r.WideProbe(leaves, o.Wide)
 	}
 	return nil
 }
